@@ -58,6 +58,9 @@ def run(prog, tier) -> Result:
             return None
         if not isinstance(v, NoneV):
             return ("value without a table row", repr(v))
+        asked = {t.split("=")[0] for t in o.trace if t.startswith("convtable[(")}
+        if a != b and asked != {f"convtable[({a},{b})]", f"convtable[({b},{a})]"}:
+            return ("gives up without looking for the opposite direction", f"lookups: {sorted(asked)}")
         return None
     cr.run("R14.1", gf, "symbolic table, distinct units", setup_tc, judge_tc)
 
